@@ -115,7 +115,8 @@ Definition create_snapshot (m : meta) (id t : Z) (ml : list manifest) (cut : opt
   if existsb (fun s => sid s =? id) (snaps m2) then Some (apply_retention m2) else None.
 
 (* ------------------------------------------------------------------ manifests (_commit_file_ops) *)
-Definition named (ps : list path) (e : entry) : bool := mem_path (epath e) ps || mem_path (lstrip (epath e)) ps.
+(* a delete names a file up to leading '/' ("/data/x" and "data/x" are the same table-relative file) *)
+Definition named (ps : list path) (e : entry) : bool := mem_path (lstrip (epath e)) (map lstrip ps).
 Definition to_existing (e : entry) : entry :=
   {| epath := epath e; estatus := ST_EXISTING; eadded := eadded e; eseq := eseq e |}.
 Definition rewrite_manifest (ps : list path) (mf : manifest) : list manifest :=
